@@ -29,6 +29,14 @@ fn with_unwind(mut out: Outcome, p: &Params, prop: &'static str) -> Outcome {
     out
 }
 
+/// a few histories of tens of thousands of operations on one long-lived object (runners_long.rs)
+fn with_marathon(mut out: Outcome, p: &Params, prop: &'static str) -> Outcome {
+    if p.part != "threads" {
+        out.merge(eyeball_verif::runners_long::run_marathons(p, prop));
+    }
+    out
+}
+
 /// two adapters driven by one limit observable (runners_pairs.rs)
 fn with_pairs(mut out: Outcome, p: &Params, prop: &'static str) -> Outcome {
     out.merge(eyeball_verif::runners_pairs::run_pairs(p, prop));
@@ -38,13 +46,13 @@ fn with_pairs(mut out: Outcome, p: &Params, prop: &'static str) -> Outcome {
 fn spec(id: &str) -> Option<Spec> {
     Some(match id {
         "C01" => Spec {
-            run: |p| with_unwind(runners_thr::run_c01(p), p, "C01"),
+            run: |p| with_marathon(with_unwind(runners_thr::run_c01(p), p, "C01"), p, "C01"),
             level: "exploration",
             rule: "call histories on the real Observable / SharedObservable (sync flavour) with a payload whose hash ignores one field; every return value and every poll result is compared with a version-counter model (value, version, per-subscriber observed version). Exhaustive over short sequences of the ~35-operation state-dependent alphabet, random long histories with <=5 subscribers, <=4 clones, write/read guards; plus a director scenario (subscribe + first poll on one thread || write accesses that do not notify on another, every order at the pause points). Non-trivial = the history contains a Ready poll, a Pending poll and a conditional setter that did not store; distinct = hash of the history.",
             assumptions: BASE_ASSUME,
         },
         "C16" => Spec {
-            run: |p| with_unwind(runners_thr::run_c16(p), p, "C16"),
+            run: |p| with_marathon(with_unwind(runners_thr::run_c16(p), p, "C16"), p, "C16"),
             level: "exploration",
             rule: "the C01/C02/C03 histories executed on the async-lock flavour with every future driven by a hand-rolled executor, judged by the same model and compared call by call with the sync run of the same history; plus randomised guard scripts (write guard held across subscriber polls; read guard held while writers wait) with their own oracle. Non-trivial = Ready and Pending polls both observed (histories), or the script ran to its end (scripts); distinct = hash of (flavour, history) / of the script log.",
             assumptions: BASE_ASSUME,
@@ -56,19 +64,19 @@ fn spec(id: &str) -> Option<Spec> {
             assumptions: BASE_ASSUME,
         },
         "C19" => Spec {
-            run: |p| with_unwind(runners_obs::run_c19(p), p, "C19"),
+            run: |p| with_marathon(with_unwind(runners_obs::run_c19(p), p, "C19"), p, "C19"),
             level: "exploration",
             rule: "histories of clone / subscribe / subscriber clone / downgrade / upgrade / weak clone / into_shared / drops (plus sets and polls) on both lock flavours; after every single operation observable_count, subscriber_count, strong_count, weak_count of every live handle are compared with integer counters. Non-trivial = at least two count checks and one subscriber; distinct = hash of (flavour, history).",
             assumptions: BASE_ASSUME,
         },
         "C02" => Spec {
-            run: runners_thr::run_c02,
+            run: |p| with_marathon(runners_thr::run_c02(p), p, "C02"),
             level: "exploration",
             rule: "(a) operation granularity: call histories on Observable/SharedObservable with up to 3 subscribers; after every single operation every subscriber whose last poll was Pending must have had that poll's waker woken if a notifying update or the close happened since; exhaustive short sequences + random. (b) threads: director scenarios (poll || set, poll || close, two polls || set, poll || drop-non-last-then-set, poll || set || close, for the unique and the shared observable) re-executed for every order in which the roles pass the pause points (incl. the clone of the supplied waker), verdict at join from poll results and wake flags only; plus free-running rounds (writers and subscribers on park/unpark executors, hook-injected yields) with the timing-free quiescence oracle. Non-trivial = a wake obligation was evaluated (a), a distinct executed schedule (b), a round with at least one Pending poll (free); distinct = hash of history / schedule trace / round.",
             assumptions: BASE_ASSUME,
         },
         "C03" => Spec {
-            run: |p| with_unwind(runners_thr::run_c03(p), p, "C03"),
+            run: |p| with_marathon(with_unwind(runners_thr::run_c03(p), p, "C03"), p, "C03"),
             level: "exploration",
             rule: "(a) histories of clone / drop / downgrade / upgrade / weak clone / into_shared / subscribe / set / poll against an owner-count model: poll is None iff no owner exists (also after reset, repeatedly), upgrade succeeds iff an owner exists, get/read return the last value after the end; exhaustive short sequences + random. (b) director scenarios: two and three threads dropping the last clones, last drop || upgrade (then set through the upgraded handle), drop || upgrade || poll - every order at sdrop:enter, sdrop:decided, upgrade:between, close:*, poll:*; verdict at join: every subscriber ended iff no handle is left. (c) free-running rounds. Non-trivial / distinct as C02.",
             assumptions: BASE_ASSUME,
@@ -86,19 +94,19 @@ fn spec(id: &str) -> Option<Spec> {
             assumptions: BASE_ASSUME,
         },
         "C05" => Spec {
-            run: |p| with_unwind(runners_vec::run_c05(p), p, "C05"),
+            run: |p| with_pairs(with_marathon(with_unwind(runners_vec::run_c05(p), p, "C05"), p, "C05"), p, "C05"),
             level: "exploration",
             rule: "histories = initial vector + source operations + subscriptions + polls on a real ObservableVector<Tracked>; exhaustive short sequences and seeded random long ones. After every mutating call a reference batched subscriber is polled (one item per message); every other subscriber's items are compared with the undelivered messages. Non-trivial = at least 2 messages published and both a Ready and a Pending poll observed; distinct = hash of (capacity, initial vector, operation list).",
             assumptions: BASE_ASSUME,
         },
         "C06" => Spec {
-            run: |p| with_unwind(runners_thr::run_c06(p), p, "C06"),
+            run: |p| with_marathon(with_unwind(runners_thr::run_c06(p), p, "C06"), p, "C06"),
             level: "exploration",
             rule: "as C05 with capacities 1,2,3,5,6,16,1000 and lazy polling patterns; the harness counts undelivered messages per subscriber. Non-trivial = a Reset was delivered or a subscriber was polled with a backlog of at least capacity-1 messages; distinct = hash of the history. A run without any Reset is INCONCLUSIVE. Plus a cross-thread variant (writer thread, every subscriber stream on its own park/unpark thread): a stream that is Pending after the writer finished, and not woken, must hold the vector's contents; at the end every replica equals the final contents.",
             assumptions: BASE_ASSUME,
         },
         "C07" => Spec {
-            run: |p| with_unwind(runners_vec::run_c07(p), p, "C07"),
+            run: |p| with_pairs(with_marathon(with_unwind(runners_vec::run_c07(p), p, "C07"), p, "C07"), p, "C07"),
             level: "fault_enumeration",
             rule: "fault = abandoning a transaction: every body (closed under prefixes, so every abandon point) x every ending (commit, drop, rollback+drop, rollback+commit, rollback+more+commit/drop) x subscriber sets x capacities, then random histories rich in transactions. Non-trivial = the history ran at least one transaction to its end; distinct = hash of the history.",
             assumptions: BASE_ASSUME,
@@ -110,51 +118,60 @@ fn spec(id: &str) -> Option<Spec> {
             assumptions: BASE_ASSUME,
         },
         "C09" => Spec {
-            run: |p| with_pairs(runners_adp::run_c09(p), p, "C09"),
+            run: |p| with_marathon(with_pairs(runners_adp::run_c09(p), p, "C09"), p, "C09"),
             level: "exploration",
             rule: "histories = initial vector + adapter (head/tail/skip, static / dynamic with initial value / purely dynamic, observable- or queue-backed limit stream) + source operations, limit changes, polls, close-limit, drop, on both stream flavours; a tap after the source stream and after the adapter logs every item; at every Pending of the adapter the rebuilt view is compared with first/last/all-but-first p items of the vector's contents (latest announced p), every diff is applied through a checked replica, and the end of the stream is compared with the end of the source. Non-trivial = the adapter emitted at least one diff, at least one quiescent check ran and a non-empty view was checked; distinct = hash of the whole history.",
             assumptions: BASE_ASSUME,
         },
         "C10" => Spec {
-            run: runners_adp::run_c10,
+            run: |p| with_marathon(runners_adp::run_c10(p), p, "C10"),
             level: "exploration",
             rule: "as C09 for filter / filter_map (v -> v+100 on kept items) with the predicate given as a bit mask over v%4 (all 16 masks). Non-trivial as C09.",
             assumptions: BASE_ASSUME,
         },
         "C11" => Spec {
-            run: runners_adp::run_c11,
+            run: |p| with_marathon(runners_adp::run_c11(p), p, "C11"),
             level: "exploration",
             rule: "as C09 for sort / sort_by(reverse) / sort_by_key(v/2); oracle = same multiset as the source and adjacent items ordered under the comparison (tie order is free). Non-trivial as C09.",
             assumptions: BASE_ASSUME,
         },
         "C12" => Spec {
-            run: runners_adp::run_c12,
+            run: |p| with_marathon(runners_adp::run_c12(p), p, "C12"),
             level: "exploration",
             rule: "chains of 2-3 stages, each stage boxed with a tap below it; at every quiescent point (and for the initial values) every stage's replica must be that stage's view of the replica of the stage below. Non-trivial = at least one quiescent check with two non-empty stage views; distinct = hash of the whole history (chain included).",
             assumptions: BASE_ASSUME,
         },
         "C13" => Spec {
-            run: runners_adp::run_c13,
+            run: |p| with_marathon(runners_adp::run_c13(p), p, "C13"),
             level: "exploration",
             rule: "batched subscriber, transaction-rich histories; after every batch at every tap the replica must be the stage's view of a state its input had at a batch boundary (source: a state between top-level operations), no batch may be empty, and for fixed-parameter chains the flattened batched diffs must equal the unbatched diffs of the same history. Non-trivial = a multi-diff source batch reached the chain and the top stage emitted a batch; distinct = hash of the history.",
             assumptions: BASE_ASSUME,
         },
         "C14" => Spec {
-            run: |p| with_pairs(runners_adp::run_c14(p), p, "C14"),
+            run: |p| with_marathon(with_pairs(runners_adp::run_c14(p), p, "C14"), p, "C14"),
             level: "exploration",
             rule: "every poll of the observed stream gets a fresh flag waker; whenever a poll is Ready (item or end) and the previous poll was Pending, the previous poll's waker must have been woken; evaluated in 'drain after every operation' and in lazy mode, for the plain stream, every adapter and random chains, with source updates, limit changes, limit-stream end and drop of the source as inputs. Non-trivial = at least one such implication was evaluated and the stream emitted something; distinct = hash of the history.",
             assumptions: BASE_ASSUME,
         },
         "C15" => Spec {
-            run: runners_adp::run_c15,
+            run: |p| with_marathon(runners_adp::run_c15(p), p, "C15"),
             level: "exploration",
             rule: "fixed-limit head(n)/tail(n), alone and as a stage of random chains, both flavours: after every single emitted diff (inside batches too) and for the initial values len(view) <= n. Non-trivial = at least one per-diff bound check ran and the adapter emitted a diff; distinct = hash of the history.",
             assumptions: BASE_ASSUME,
         },
         "C17" => Spec {
-            run: runners_vec::run_c17,
+            run: |p| with_marathon(runners_vec::run_c17(p), p, "C17"),
             level: "exploration",
             rule: "every mutator with every index 0..len+2 directly and inside transactions, all traversal decision sequences over {keep,set,remove,set-then-remove,stop} for lengths <= 5 (6 thorough), plus random histories; return values, contents, panics and visiting order (by element id) compared with a plain Vec model. Non-trivial = the history contained an out-of-range panic, a traversal that mutated, or a documented no-op; distinct = hash of the history.",
+            assumptions: BASE_ASSUME,
+        },
+        "MARATHON" => Spec {
+            run: |p| {
+                let prop: &'static str = Box::leak(std::env::var("UNWIND_PROP").unwrap_or("C05".into()).into_boxed_str());
+                eyeball_verif::runners_long::run_marathons(p, prop)
+            },
+            level: "exploration",
+            rule: "debug entry: the marathons alone, judged for the property named by UNWIND_PROP",
             assumptions: BASE_ASSUME,
         },
         "UNWIND" => Spec {
